@@ -32,16 +32,17 @@ class _IO:
         pass
 
 
-def run_ops_impl(rng, nops, script=None):
-    """performs nops operations chosen by rng (or the given script); returns (ops performed, digest)"""
+def run_ops_impl(rng, nops, script=None, link=False):
+    """performs nops operations chosen by rng (or the given script); returns (ops performed, digest);
+    link=True: also send() / close(error) / and what every operation wrote to the connection"""
     import contextlib
     import io
 
     with contextlib.redirect_stderr(io.StringIO()):  # RemoteError.warn() of unclaimed errors
-        return _run_ops_impl(rng, nops, script)
+        return _run_ops_impl(rng, nops, script, link)
 
 
-def _run_ops_impl(rng, nops, script=None):
+def _run_ops_impl(rng, nops, script=None, link=False):
     from execnet import gateway_base as gb
 
     gw = gb.BaseGateway(_IO(), "stub", _startcount=1)
@@ -55,6 +56,7 @@ def _run_ops_impl(rng, nops, script=None):
     END = ("END",)
     val = [0]
     finished = [False]
+    refused = {i: 0 for i in IDS}
 
     def frame(code, id, payload=b""):
         with gw._receivelock:
@@ -107,6 +109,13 @@ def _run_ops_impl(rng, nops, script=None):
             finished[0] = True
         elif k == 7:
             held[id].close()
+        elif k == 9:
+            held[id].close("boom")
+        elif k == 8:
+            try:
+                held[id].send(op[2])
+            except OSError:
+                refused[id] += 1
         elif k == 5:
             try:
                 if op[2]:
@@ -128,7 +137,7 @@ def _run_ops_impl(rng, nops, script=None):
         if k == 2:
             # the model's LNew covers a fresh object under an id without a stale callback registration
             return not (id in fac._callbacks and id not in fac._channels)
-        if k in (3, 4, 5, 7):
+        if k in (3, 4, 5, 7, 8, 9):
             return id in held
         return True
 
@@ -142,10 +151,13 @@ def _run_ops_impl(rng, nops, script=None):
                 break
         else:
             id = rng.choice(IDS[:3] if rng.random() < 0.8 else IDS)
-            k = rng.choices([0, 1, 2, 3, 4, 5, 6, 7], [30, 8, 14, 6, 30, 8, 2, 6])[0]
-            if k == 0:
+            if link:
+                k = rng.choices([0, 1, 2, 3, 4, 5, 6, 7, 8, 9], [12, 8, 14, 8, 10, 8, 2, 7, 26, 3])[0]
+            else:
+                k = rng.choices([0, 1, 2, 3, 4, 5, 6, 7], [30, 8, 14, 6, 30, 8, 2, 6])[0]
+            if k in (0, 8):
                 val[0] += 1
-                op = [0, id, val[0]]
+                op = [k, id, val[0]]
             elif k == 1:
                 op = [1, id, rng.choice([0, 0, 1, 2])]
             elif k == 5:
@@ -159,6 +171,13 @@ def _run_ops_impl(rng, nops, script=None):
                 continue
             n += 1
             continue
+        if link and op[0] == 2 and op[1] in held:
+            # the old object goes away first (its __del__ may notify the peer)
+            do([3, op[1]])
+            ops.append([3, op[1]])
+            if not legal(op):
+                n += 1
+                continue
         do(op)
         ops.append(op)
         n += 1
@@ -184,6 +203,24 @@ def _run_ops_impl(rng, nops, script=None):
         d += [int(st[0]), int(st[1]), st[2], 0 if cbreg is None else (1 if cbreg[1] is gb.NO_ENDMARKER_WANTED else 2)]
         d += [len(got[id])] + got[id] + [ends[id], errs_out[id], eofs[id]]
         dig.append(d)
+    if link:
+        import io as _io
+
+        out = []
+        for w in gw._io.written:
+            m = gb.Message.from_io(_io.BytesIO(w))
+            if m.msgcode == gb.Message.CHANNEL_DATA:
+                out += [0, m.channelid, gb.loads_internal(m.data)]
+            elif m.msgcode == gb.Message.CHANNEL_CLOSE:
+                out += [1, m.channelid, 0]
+            elif m.msgcode == gb.Message.CHANNEL_CLOSE_ERROR:
+                out += [1, m.channelid, 1]
+            elif m.msgcode == gb.Message.CHANNEL_LAST_MESSAGE:
+                out += [1, m.channelid, 2]
+            else:
+                out += [9, m.channelid, m.msgcode]
+        dig = [dig, [refused[i] for i in IDS], [len(gw._io.written)] + out]
+        del gw._io.written[:]  # what the remaining objects say when they go away is not part of the comparison
     for ch in list(held.values()):
         ch._remoteerrors[:] = []
     held.clear()
@@ -248,11 +285,73 @@ def correspondence(ck, ok, prop, tier, replay=None):
     ck.cov["chan_step_mismatches"] = bad
 
 
-def _shrink(ops):
+def split_link(out):
+    """model output of selector 3 -> [per-id digests, refused counts, wire]"""
+    res, i = [], 0
+    for _ in IDS:
+        st = i
+        i += 1
+        if out[i] == -1:
+            i += 1
+        else:
+            i += 1 + out[i]
+        i += 4
+        i += 1 + out[i]
+        i += 3
+        res.append(out[st:i])
+        i += 1
+    return [res, out[i:i + 4], out[i + 4:]]
+
+
+def link_correspondence(ck, ok, tier, replay=None):
+    """the sending side: send() / close() / close(error) / __del__ on real Channel objects of a thread-less gateway whose
+    connection records every write, mixed with arriving frames, receive, setcallback and the epilogue -- against the
+    extracted Link model run sequentially: same object states, same refused sends, same frames on the wire in the same order"""
+    if not ok:
+        return
+    rng = random.Random(ck.seed * 104729 + 5)
+    n = 400 if tier == "quick" else 6000
+    cases = []
+    if replay and replay.get("example", {}).get("link_ops") is not None:
+        cases.append(run_ops_impl(None, 10**6, script=replay["example"]["link_ops"], link=True))
+    elif not replay:
+        for _ in range(n):
+            cases.append(run_ops_impl(random.Random(rng.getrandbits(40)), rng.choice([4, 8, 16, 30, 60]), link=True))
+    if not cases:
+        return
+    try:
+        mouts = Model().run([[3] + [x for op in ops for x in op] for ops, _ in cases])
+    except Exception as e:  # noqa
+        ck.broke("correspondence", "modelrun-link", repr(e))
+        return
+    bad, kinds, frames, refused = 0, {}, 0, 0
+    for (ops, dig), mo in zip(cases, mouts):
+        for op in ops:
+            kinds[op[0]] = kinds.get(op[0], 0) + 1
+        frames += dig[2][0]
+        refused += sum(dig[1])
+        try:
+            mdig = split_link(mo)
+        except Exception:  # noqa
+            mdig = None
+        if mdig != dig:
+            bad += 1
+            if bad <= 3:
+                ck.broke("correspondence", "link-model-vs-impl", {"link_ops": _shrink(ops, True), "impl": dig, "model": mdig})
+    ck.cov["link_cases"] = len(cases)
+    ck.cov["link_ops"] = {str(k): v for k, v in sorted(kinds.items())}
+    ck.cov["link_frames_written"] = frames
+    ck.cov["link_sends_refused"] = refused
+    ck.cov["link_mismatches"] = bad
+
+
+def _shrink(ops, link=False):
     """greedy removal of operations while model and implementation still differ"""
     def differs(o):
         try:
-            o2, dig = run_ops_impl(None, 10**6, script=o)
+            o2, dig = run_ops_impl(None, 10**6, script=o, link=link)
+            if link:
+                return split_link(Model().run([[3] + [x for op in o2 for x in op]])[0]) != dig
             mo = Model().run([[2] + [x for op in o2 for x in op]])[0]
             return split_model(mo) != dig
         except Exception:  # noqa
